@@ -48,6 +48,16 @@ func (b Bonder) Bond(ctx context.Context, mutable state.Mutable, tx *chain.Trans
 	address := tx.GetSponsor()
 	addressBytes := address[:]
 
+	txID := tx.GetID()
+	switch _, err := b.db.Get(txID[:]); {
+	case err == nil:
+		// The tx is already bonded (ex. it was submitted twice). Bonding must be
+		// idempotent because Unbond releases the bond of a tx exactly once.
+		return true, nil
+	case !errors.Is(err, database.ErrNotFound):
+		return false, fmt.Errorf("failed to get tx fee: %w", err)
+	}
+
 	pendingBalance, err := b.getPendingBondBalance(addressBytes)
 	if err != nil {
 		return false, err
@@ -82,7 +92,6 @@ func (b Bonder) Bond(ctx context.Context, mutable state.Mutable, tx *chain.Trans
 		return false, err
 	}
 
-	txID := tx.GetID()
 	if err := batch.Put(txID[:], binary.BigEndian.AppendUint64(nil, fee)); err != nil {
 		return false, fmt.Errorf("failed to write tx fee: %w", err)
 	}
